@@ -29,6 +29,7 @@ type c07Case struct {
 	DataAlg   int    `json:"data_alg"`
 	Detached  bool   `json:"detached_key,omitempty"`
 	Setter    bool   `json:"key_through_setter,omitempty"` // SP key given through SetSPKeyStore only
+	Custom    bool   `json:"custom_key_store,omitempty"`   // SPKeyStore field holds a key store of a custom type
 }
 
 func c07Spec(c c07Case, encrypted bool) idp.ResponseSpec {
@@ -65,6 +66,7 @@ func c07ExecOn(c c07Case, live *saml2.SAMLServiceProvider) (keys []string, detai
 	if c.Setter {
 		conf.EncField, conf.EncSetter = "-", "KS"
 	}
+	conf.PlainStores = c.Custom && !c.Setter
 	enc := idp.RenderResponse(c07Spec(c, true))
 	twin := idp.RenderResponse(c07Spec(c, false))
 	sp := conf.Build()
@@ -177,6 +179,9 @@ func c07Run(r *mc.Run) {
 		c.DataAlg = ch.Choose("dataalg", len(idp.AllDataAlgs))
 		c.Detached = ch.Bool("detached")
 		c.Setter = ch.Bool("setter")
+		if !c.Setter {
+			c.Custom = ch.Bool("custom-key-store")
+		}
 		cases = append(cases, c)
 	})
 	r.Set("partB_choice_vectors", n)
@@ -201,7 +206,7 @@ func c07Run(r *mc.Run) {
 	groups := map[string][]c07Case{}
 	var order []string
 	for _, c := range cases {
-		k := fmt.Sprintf("%s/%s/%d/%v/%v", c.Placement, c.Recip, c.DataAlg, c.Detached, c.Setter)
+		k := fmt.Sprintf("%s/%s/%d/%v/%v/%v", c.Placement, c.Recip, c.DataAlg, c.Detached, c.Setter, c.Custom)
 		if _, ok := groups[k]; !ok {
 			order = append(order, k)
 		}
